@@ -36,7 +36,7 @@ type Plan33 struct {
 
 func gen33(r *simcore.Rand, tier string) any {
 	p := &Plan33{}
-	p.World = genWorld(r, worldOpts{forks: []string{"amsterdam"}, maxBlocks: 2, maxTxs: 24, maxContr: 7, lowGasProb: 0.12})
+	p.World = genWorld(r, worldOpts{forks: []string{"amsterdam"}, maxBlocks: 2, maxTxs: 24, maxContr: 7, lowGasProb: 0.12, blockhash: true})
 	p.Procs = []int{1, 2, 3, 4, 8, 16}[r.Intn(6)]
 	p.Scheme = []string{rawdb.HashScheme, rawdb.PathScheme}[r.Intn(2)]
 	p.CleanMB = []int{0, 1, 16}[r.Intn(3)]
@@ -346,6 +346,7 @@ func run33(t *testing.T, pl any) *simcore.Result {
 		simcore.Harnessf("execsim C33: new sequential chain: %v", err)
 	}
 	defer seq.bc.Stop()
+	b.hdrChain = seq.bc // BLOCKHASH during generation resolves ancestors through the sequential chain
 
 	for bi := range p.World.Blocks {
 		blk, _ := b.next(bi)
